@@ -257,12 +257,25 @@ type ServeResult struct {
 // Serve delivers a serialized request to the service with its own request context, which is
 // cancelled when the call returns (as gRPC does), under a deadline watchdog.
 func (s *Stack) Serve(req []byte, deadline time.Duration) ServeResult {
+	ctx, cancel := gocontext.WithCancel(gocontext.Background())
+	defer cancel()
+	return s.ServeCtx(ctx, req, deadline)
+}
+
+// Unmarshal decodes a serialized push-pull message.
+func Unmarshal(b []byte) *model.PushPullMessage {
+	msg := &model.PushPullMessage{}
+	_ = proto.Unmarshal(b, msg)
+	return msg
+}
+
+// ServeCtx is Serve with a caller-supplied request context (a long-lived one lets the background
+// work that the handler starts with the request's context run to its end).
+func (s *Stack) ServeCtx(ctx gocontext.Context, req []byte, deadline time.Duration) ServeResult {
 	msg := &model.PushPullMessage{}
 	if err := proto.Unmarshal(req, msg); err != nil {
 		return ServeResult{RPCErr: "harness: " + err.Error()}
 	}
-	ctx, cancel := gocontext.WithCancel(gocontext.Background())
-	defer cancel()
 	done := make(chan ServeResult, 1)
 	svc := s.Svc
 	go func() {
